@@ -261,7 +261,7 @@ Proof.
       * rewrite setp_same. split; [reflexivity|]. intros _. right. left. reflexivity.
       * rewrite setp_other by exact Hu. rewrite <- Hin.
         split; [intros [H|[H|[]]]; [exact H | congruence] | intros H; left; exact H]. }
-  unfold lstep_gen. destruct (phases st t) eqn:P; destruct a; try exact Same.
+  unfold lstep_gen, lstep_pass. destruct (phases st t) eqn:P; destruct a; try exact Same.
   - destruct (free_for (lock st) t); [apply Keep; congruence | exact Same].
   - apply Keep; congruence.
   - apply Keep; congruence.
@@ -291,7 +291,7 @@ Proof. apply (lock_file_sound_from early None sched). Qed.
 Lemma no_loss_step st t a : a <> Timeout -> (forall u, phases st u <> PDoneLost) ->
   forall u, phases (lstep st t a) u <> PDoneLost.
 Proof.
-  intros Ha H. unfold lstep, lstep_gen.
+  intros Ha H. unfold lstep, lstep_gen, lstep_pass.
   assert (Set_ : forall p l f, p <> PDoneLost -> forall u, phases (LS l (setp (phases st) t p) f) u <> PDoneLost).
   { intros p l f Hp u. cbn [phases]. destruct (Nat.eq_dec u t) as [->|Hu]; [rewrite setp_same; exact Hp | rewrite setp_other by exact Hu; apply H]. }
   destruct (phases st t) eqn:P; destruct a; try congruence; try exact H.
@@ -347,7 +347,7 @@ Definition hold_inv (st : lstate) : Prop :=
 
 Lemma hold_inv_step early st t : hold_inv st -> mutex_state st -> hold_inv (lstep_gen early st t Step).
 Proof.
-  intros [Hl Hn] Hm. unfold lstep_gen.
+  intros [Hl Hn] Hm. unfold lstep_gen, lstep_pass.
   assert (Other : forall p l, (p = PWritten \/ p = PHolding -> l = Some t) -> p <> PDoneLost ->
             (forall u, u <> t -> phases st u = PWritten \/ phases st u = PHolding -> l = Some u) ->
             hold_inv (LS l (setp (phases st) t p) (file st))).
@@ -409,3 +409,19 @@ Proof. cbn. repeat split. Qed.
 (* a stale lock is taken over and every work package of the run leaves its row (current code) *)
 Lemma stale_lock_keeps_rows : file (lrun (lstale 7) (stale_serial_schedule 3)) = [0; 1; 2].
 Proof. reflexivity. Qed.
+
+(* ---------------------------------------------------------------- pass phrases *)
+(* a contender whose pass phrase differs from the one in the lock file is refused, in every state *)
+Lemma other_pass_refused pass early st a b :
+  pass a <> pass b -> lock st = Some (pass a) -> phases st b = PIdle -> lstep_pass pass early st b Step = st.
+Proof.
+  intros Hne Hl Hb. unfold lstep_pass. rewrite Hb, Hl. cbn [free_for].
+  destruct (Nat.eqb_spec (pass a) (pass b)); [contradiction | reflexivity].
+Qed.
+
+(* distinct pass phrases: 1 is still polling while 0 holds; one shared pass phrase: both are inside the critical section *)
+Lemma shared_pass_no_exclusion :
+  let d := lrun_pass (fun t => t) true linit overlap_schedule in
+  let s := lrun_pass (fun _ => 7) true linit overlap_schedule in
+  (phases d 0 = PHolding /\ phases d 1 = PIdle) /\ (phases s 0 = PHolding /\ phases s 1 = PHolding).
+Proof. cbn. repeat split. Qed.
